@@ -25,7 +25,7 @@ META = {
     "category": "model_checking",
     "text": "TLC model-checks a code-shaped model of closeKnown (sync.Once, context cancel, Disconnected) with "
             "every closer kind (Close, CloseUnknown, CloseWith, failed write, read-loop EOF), session handler "
-            "switches around the close, a failing underlying net.Conn.Close, and of the read loop's recover(); the Once-agnostic variant violates at-most-once, the recover-less variant "
+            "switches around the close, a failing underlying net.Conn.Close, socket write errors with a parked read loop, a cancelled parent context, and of the read loop's recover(); the Once-agnostic variant violates at-most-once, the recover-less variant "
             "violates Alive, and the former enumerates every gate-point interleaving. Interleavings and all "
             "handler-fault sequences up to length 3 are forced on a real MinecraftConn in a child process; the "
             "observable history (call/ret with ErrClosedConn classification, Disconnected calls, packets "
@@ -82,6 +82,9 @@ def classify(run, bad):
         return "ret-rejected:%s" % op
     if ev == "settled":
         fw = [r.get("fault") for r in before if r.get("ev") == "call" and r.get("fault")]
+        if any(r.get("ev") == "ctxcancel" for r in before) and not fw:
+            ops = sorted({r["op"] for r in before if r.get("ev") == "call" and r["op"] in ("loop", "close", "unknown")})
+            return "no-teardown-after-parent-context-cancelled:" + "+".join(ops)
         return "no-teardown-after-%s" % ("write-error-" + fw[0] if fw else "closing-call-returned") + \
             (":underlying-close-failed" if run[0].get("closefail") and not fw else "")
     if ev == "end":
@@ -179,15 +182,17 @@ def run(ctx):
     n_enum = len(s2)
     rnd.shuffle(s2)
     if ctx.quick:
-        # seeded sample over the classes: handler switch / failing socket write / failing Close / plain
+        # seeded sample over the classes: parent context cancelled / handler switch / failing socket
+        # write / failing Close / plain
         def has(x, *prefixes):
             return any(k.startswith(prefixes) for k in x["kind"].values())
-        a = [x for x in s2 if has(x, "switch")][:70]
-        w = [x for x in s2 if has(x, "wreset", "wclosed") and not has(x, "switch")][:70]
-        rest = [x for x in s2 if not has(x, "switch", "wreset", "wclosed")]
-        b = [x for x in rest if x["closefail"]][:60]
-        c = [x for x in rest if not x["closefail"]][:50]
-        s2 = a + w + b + c
+        x0 = [x for x in s2 if has(x, "ctxcancel")][:60]
+        a = [x for x in s2 if has(x, "switch") and not has(x, "ctxcancel")][:60]
+        w = [x for x in s2 if has(x, "wreset", "wclosed") and not has(x, "switch", "ctxcancel")][:60]
+        rest = [x for x in s2 if not has(x, "switch", "wreset", "wclosed", "ctxcancel")]
+        b = [x for x in rest if x["closefail"]][:40]
+        c = [x for x in rest if not x["closefail"]][:40]
+        s2 = x0 + a + w + b + c
     s3 = ctx.tlc("ConnClose", "ConnClose_sched3.cfg", workers=1, count=False,
                  simulate=ctx.pick(60, 2500), depth=14).printed_json("SCHED")
     fr = ctx.tlc("ConnClose", "ConnClose_faults.cfg", workers=1)
